@@ -43,8 +43,10 @@ class CopyPropagate:
             ):
                 # direct assignment: x = y
                 # substitute all occurences of this definition of `x` with `y`
-                if len(def_use.uses[d]) > 0:
-                    # optimization: only propagate if there is at least one use
+                if any(isinstance(u, Var) for u in def_use.uses[d]):
+                    # only propagate if there is at least one use to rewrite;
+                    # the target of `x[i] = e` also counts as a use of `x`,
+                    # but it is not an expression and is left alone
                     src = def_use.find_def_from_use(d.site.expr)
                     if len(def_use.successors[src]) > 0:
                         # `y` is redefined (or mutated in place) somewhere after
